@@ -44,6 +44,7 @@ pub fn run_decode(api: Api, enc: &Encoded, payload: &[u8], s: &Sched, st: &mut S
     let mut cut_i = 0usize;
     let mut arrived = 0usize;
     let mut idle = 0usize;
+    let mut idle_with_room = 0usize;
     let mut step = 0usize;
     let max_steps = 4 * stream.len() + 4 * s.cuts.len() + 64;
     let ctx = |m: String| format!("{} [cuts {:?}, outs {:?}, stops {:?}]", m, &s.cuts[..s.cuts.len().min(12)], s.outs, s.stops);
@@ -121,12 +122,17 @@ pub fn run_decode(api: Api, enc: &Encoded, payload: &[u8], s: &Sched, st: &mut S
         }
         if c == 0 && p == 0 {
             idle += 1;
-            if arrived == stream.len() && idle > s.outs.len() + 1 && s.outs.iter().any(|o| *o > 0) {
-                // everything has arrived, every buffer size of the cycle was offered: no progress is a stall
-                return Err(ctx(format!("stalled at coding offset {} with the whole stream available", consumed)));
+            // a stall is: everything has arrived, the output has room, and still nothing moves - twice in a row (reads into a
+            // zero-length buffer may legitimately do nothing: whether framing is consumed without room for data is not stated)
+            if arrived == stream.len() && osz > 0 {
+                idle_with_room += 1;
+                if idle_with_room >= 2 {
+                    return Err(ctx(format!("stalled at coding offset {} with the whole stream available and room in the output", consumed)));
+                }
             }
         } else {
             idle = 0;
+            idle_with_room = 0;
         }
     }
     if consumed != clen {
